@@ -209,10 +209,31 @@ class ModBuilder:
             self.attrs[i["name"]] = inst
 
     def connect_all(self):
-        for i in self.ms["insts"]:
+        rewire = self.design.get("rewire")
+        names = [i["name"] for i in self.ms["insts"]]
+        for k, i in enumerate(self.ms["insts"]):
             inst = self.insts[i["name"]]
             for port, e in i["conns"].items():
+                if rewire and len(names) > 1:
+                    # the designer first ties the port to something else (a reference to a neighbour's port, a throw-away signal),
+                    # then to what the design says: only the last connection counts
+                    other = self.insts[names[(k + 1) % len(names)]]
+                    oports = list(self._ports_of(other))
+                    if rewire == "pref" and oports:
+                        inst.connect(port, getattr(other, oports[0]))
+                    else:
+                        inst.connect(port, h.Signal(width=3))
                 inst.connect(port, self.expr(e))
+
+    @staticmethod
+    def _ports_of(inst):
+        of = getattr(inst, "of", None)
+        ports = getattr(of, "ports", None)
+        if ports is None and hasattr(of, "module"):
+            ports = {p.name: p for p in of.module.port_list}
+        if ports is None and hasattr(of, "prim"):
+            ports = {p.name: p for p in of.prim.port_list}
+        return list(ports or [])
 
     def finish(self) -> h.Module:
         ms, built = self.ms, self.built
